@@ -759,9 +759,13 @@ class Sched:
         self.threads = {0: {'done': False, 'result': None, 'waiting': None}}; self.current = 0; self.abort = None; self.nswitch = 0; self.py = []
     def finish(self):
         if len(self.threads) > 1:
-            if not self.abort and not all(t['done'] for t in self.threads.values()): pass
-            if not self.abort: self.abort_all(AbortPath())
-            for th in self.py: th.join(timeout=5)
+            leftover = not all(t['done'] for t in self.threads.values())
+            if leftover and not self.abort:
+                self.abort_all(AbortPath())     # harness returned without joining: stop the remaining green threads
+                for th in self.py: th.join(timeout=5)
+                self.abort = None
+            else:
+                for th in self.py: th.join(timeout=5)
     def abort_all(self, e):
         with self.cv:
             if not self.abort: self.abort = e
@@ -790,6 +794,19 @@ class Sched:
                 self.current = nxt; self.cv.notify_all()
                 while self.current != me and not self.abort: self.cv.wait()
             if self.abort: raise AbortPath()
+    def block_switch(self):
+        """current thread is blocked on a lock: must hand over to another runnable thread (not itself)"""
+        me = self.me()
+        if self.abort: raise AbortPath()
+        r = [t for t in self.runnable() if t != me]
+        if not r:
+            self.abort_all(Panic("deadlock: no runnable thread")); raise AbortPath()
+        nxt = r[self.ip.choose(len(r), 's')]
+        self.nswitch += 1
+        with self.cv:
+            self.current = nxt; self.cv.notify_all()
+            while self.current != me and not self.abort: self.cv.wait()
+        if self.abort: raise AbortPath()
     def spawn(self, closure):
         tid = len(self.threads); self.threads[tid] = {'done': False, 'result': None, 'waiting': None}
         def body():
